@@ -5,7 +5,7 @@ use super::model::*;
 use crate::rng::{fnv, fnv_more};
 use std::collections::{BTreeMap, BTreeSet, HashSet};
 
-#[derive(Default, Clone)]
+#[derive(Default, Clone, serde::Serialize, serde::Deserialize)]
 pub struct Stats {
     pub cases: u64,
     pub rejects: u64,
